@@ -33,10 +33,10 @@ Theorem C08_operands :
       fn_receiver f = o_receiver (me_opts m) /\
       fn_style f = o_style (me_opts m) /\
       fn_ret_err f = me_ret_error d m /\
-      v_name (fn_dst f) = (match dst_n with [] => (if o_reverse (me_opts m) then s2b "src" else s2b "dst") | _ => dst_n end) /\
+      v_name (fn_dst f) = declared_name dst_n (if o_reverse (me_opts m) then s2b "src" else s2b "dst") /\
       type_name d (deref_ptr dst_t) = Ok (v_type (fn_dst f)) /\ v_pointer (fn_dst f) = is_ptr dst_t /\
       v_name (fn_src f) = (match o_receiver (me_opts m) with
-                           | [] => match src_n with [] => (if o_reverse (me_opts m) then s2b "dst" else s2b "src") | _ => src_n end
+                           | [] => declared_name src_n (if o_reverse (me_opts m) then s2b "dst" else s2b "src")
                            | r => r end) /\
       type_name d (deref_ptr src_t) = Ok (v_type (fn_src f)) /\ v_pointer (fn_src f) = is_ptr src_t /\
       List.length (fn_args f) = Nat.min (List.length arg_ns) (List.length arg_ts).
